@@ -40,4 +40,27 @@ try:
     out["special.li2"] = [float(li2(x)) for x in spec["special_points"] + [1.5, 3.0, -4.0]]
 except Exception as e:  # noqa
     out["special"] = "IMPORT:" + type(e).__name__ + ":" + str(e)[:80]
+# the RSL objects the classes really build, called with the argument vectors the classes really pack (dtype and length included)
+try:
+    sys.path.insert(0, os.path.join(os.path.dirname(os.path.abspath(__file__)), ".."))
+    from lib import rslsweep
+    for cell in spec.get("rsl_cells", []):
+        for ident, rsl, _coeff in rslsweep.rsls_of_cell(cell, pto=3):
+            key0 = "rsl:%s/%s:%s:%d" % (cell["proc"], cell["kind"], ident.get("cls", "?"), ident.get("order", -1))
+            if isinstance(rsl, tuple):
+                out[key0 + ":build"] = ["EXC:" + type(rsl[1]).__name__]
+                continue
+            for part in ("reg", "sing", "loc"):
+                f = getattr(rsl, part)
+                if f is None:
+                    continue
+                vals = []
+                for z in (0.3, 0.7):
+                    try:
+                        vals.append(float(np.real(f(z, rsl.args[part]))))
+                    except Exception as e:  # noqa
+                        vals.append("EXC:" + type(e).__name__)
+                out[key0 + ":" + part] = vals
+except Exception as e:  # noqa
+    out["rsl"] = "IMPORT:" + type(e).__name__ + ":" + str(e)[:120]
 json.dump(out, sys.stdout)
